@@ -201,30 +201,49 @@ class TaskScenario(ScenarioData):
 
         return all(successor.get("scheduled", self.scenarioIdx) for successor in successors)
 
-    def _getSuccessors(self) -> list[Any]:
+    def _getSuccessorEdges(self) -> list[tuple[Any, Any]]:
         """
-        Get all tasks that depend on this task (successors).
+        Get (task, gapduration) for all tasks that depend on this task (successors).
 
-        These are tasks T where T's dependencies include this task.
+        These are the leaf tasks T whose dependencies - their own or those inherited from
+        an enclosing container - include this task or a container that encloses it: a
+        dependency on a container is a dependency on every task inside it.
         """
-        successors = []
+        mine = []
+        node: Optional[Any] = self.property
+        while node is not None:
+            mine.append(node)
+            node = node.parent
+
+        edges = []
         for task in self.project.tasks:
-            if not task.leaf():
+            if not task.leaf() or task is self.property:
                 continue
-            deps = task.get("depends", self.scenarioIdx) or []
+            task_scenario = task.data[self.scenarioIdx] if task.data else None
+            if task_scenario is not None and hasattr(task_scenario, "getAllDependencies"):
+                deps = task_scenario.getAllDependencies()
+            else:
+                deps = task.get("depends", self.scenarioIdx) or []
             for dep in deps:
                 if isinstance(dep, dict):
                     pred = dep.get("task")
+                    gap = dep.get("gapduration")
                 elif hasattr(dep, "task"):
                     pred = dep.task
+                    gap = getattr(dep, "gapduration", None)
                 else:
                     pred = dep
+                    gap = None
 
-                if pred is self.property:
-                    successors.append(task)
+                if any(pred is m for m in mine):
+                    edges.append((task, gap))
                     break
 
-        return successors
+        return edges
+
+    def _getSuccessors(self) -> list[Any]:
+        """Get all tasks that depend on this task (successors)."""
+        return [task for task, _gap in self._getSuccessorEdges()]
 
     def _getSuccessorsWithMaxGap(self) -> list[tuple[Any, Any, Any]]:
         """
